@@ -393,12 +393,14 @@ class Plane:
             plane.opd = lentil.rescale(plane.opd, scale=scale, shape=None, mask=support,
                                        order=3, mode='nearest', unitary=False)
 
+        # (mode 'nearest' as for amplitude and opd: a new sample that lies within
+        # half an old sample of the array border is inside the old array)
         if plane._mask.ndim == 2:
             plane._mask = lentil.rescale(plane._mask, scale=scale, shape=None, mask=None, order=0,
-                                         mode='constant', unitary=False)
+                                         mode='nearest', unitary=False)
         else:
             plane._mask = np.asarray([lentil.rescale(mask, scale=scale, shape=None, mask=None,
-                                                     order=0, mode='constant', unitary=False)
+                                                     order=0, mode='nearest', unitary=False)
                                       for mask in plane._mask])
 
         plane._mask[np.nonzero(plane._mask)] = 1
